@@ -57,6 +57,8 @@ package pmm
 //@   requires alloc != nil && len(alloc.pools) >= 0 && len(alloc.pools) < 0x100000
 //@   ensures found: r >= 0 ==> r < len(alloc.pools) && inPool(pool(alloc, r), frame)
 //@   ensures none: r < 0 ==> r == -1 && forall(i, int, 0 <= i && i < len(alloc.pools) ==> !inPool(pool(alloc, i), frame))
+//@   ensures unique: wfAlloc(alloc) ==> forall(i, int, 0 <= i && i < len(alloc.pools) && inPool(pool(alloc, i), frame) ==> i == r)
+//@   at return 2: inst poolIndex
 //@   loop 1 (range alloc.pools) invariant rangeindex >= -1 && rangeindex < len(alloc.pools) && forall(i, int, 0 <= i && i <= rangeindex ==> !inPool(pool(alloc, i), frame))
 
 // bit g of pool q / the free counter of pool q are what they were at entry
@@ -110,6 +112,8 @@ package pmm
 //@   at return 2: use cntZero(old(bmc(pool(alloc, poolIndex))), bmb(pool(alloc, poolIndex)), nfr(pool(alloc, poolIndex)))
 //@   at return 2: use uint64((blockIndex<<6)+blockOffset) < nfr(pool(alloc, poolIndex))
 //@   at return 2: use cntFlip(old(bmc(pool(alloc, poolIndex))), bmc(pool(alloc, poolIndex)), bmb(pool(alloc, poolIndex)), uint64((blockIndex<<6)+blockOffset), nfr(pool(alloc, poolIndex)))
+//@   at return 2: use forall(i, int, 0 <= i && i < len(alloc.pools) && inPool(pool(alloc, i), pool(alloc, poolIndex).startFrame + mm.Frame((blockIndex<<6)+blockOffset)) ==> i == poolIndex)
+//@   at return 2: use othersSame(alloc, poolIndex, pool(alloc, poolIndex).startFrame + mm.Frame((blockIndex<<6)+blockOffset))
 //@   at return 2: use forall(q, int, cntSame(old(bmc(pool(alloc, q))), bmc(pool(alloc, q)), bmb(pool(alloc, q)), bmb(pool(alloc, q)), nfr(pool(alloc, q))))
 
 // markFrame flips the bit of a frame that is currently in the opposite state
@@ -227,6 +231,8 @@ package pmm
 // starts empty) and reserves every frame it hands out, in the pool that holds it: afterwards a
 // frame's bit is set exactly if it was set before (kernel frames) or the frame was handed out
 //@ pred bitsAre(a *BitmapAllocator) = forall(q, int, g, uint64, 0 <= q && q < len(a.pools) && g < nfr(pool(a, q)) ==> bitOf(bmc(pool(a, q)), bmb(pool(a, q)), g) == ite(handed[pool(a, q).startFrame + mm.Frame(g)], 1, old(bitOf(bmc(pool(a, q)), bmb(pool(a, q)), g))))
+//@ pred bitsSet(a *BitmapAllocator) = forall(q, int, g, uint64, 0 <= q && q < len(a.pools) && g < nfr(pool(a, q)) && handed[pool(a, q).startFrame + mm.Frame(g)] ==> bitOf(bmc(pool(a, q)), bmb(pool(a, q)), g) == 1)
+//@ pred bitsKept(a *BitmapAllocator) = forall(q, int, g, uint64, 0 <= q && q < len(a.pools) && g < nfr(pool(a, q)) && !handed[pool(a, q).startFrame + mm.Frame(g)] ==> bitOf(bmc(pool(a, q)), bmb(pool(a, q)), g) == old(bitOf(bmc(pool(a, q)), bmb(pool(a, q)), g)))
 //@ pred handedOK() = forall(x, mm.Frame, handed[x] ==> bootMemAllocator.allocCount > 0 && x <= bootMemAllocator.lastAllocFrame && !inKernel(&bootMemAllocator, x))
 //@ func (alloc *BitmapAllocator) reserveEarlyAllocatorFrames()
 //@   property C01 C02 C03
@@ -238,10 +244,11 @@ package pmm
 //@   ensures layout: layoutSame(alloc)
 //@   ensures wf: wfAlloc(alloc)
 //@   ensures count: bootMemAllocator.allocCount <= old(bootMemAllocator.allocCount)
-//@   ensures bits: bitsAre(alloc)
+//@   ensures bits: bitsSet(alloc) && bitsKept(alloc)
 //@   ensures handed: handedOK()
 //@   loop 1 (i < allocCount) invariant i <= allocCount && allocCount == old(bootMemAllocator.allocCount) && bootMemAllocator.allocCount <= i && layoutSame(alloc) && wfAlloc(alloc)
-//@   loop 1 invariant bits: bitsAre(alloc)
+//@   loop 1 invariant set: bitsSet(alloc)
+//@   loop 1 invariant kept: bitsKept(alloc)
 //@   loop 1 invariant handed: handedOK()
 //@   loop 1 use forall(x, mm.Frame, emptySet(x))
 
